@@ -128,3 +128,31 @@ func vfSliceEq(a, b []int) bool {
 	}
 	return ok
 }
+
+// ---- small reference definitions shared by several properties ----
+
+func ref03Filter(keep func(int, int) bool, l []int) []int {
+	var r []int
+	for i, v := range l {
+		if keep(v, i) {
+			r = append(r, v)
+		}
+	}
+	return r
+}
+
+func ref03Distinct(l []int) []int {
+	var r []int
+	for _, v := range l {
+		seen := false
+		for _, o := range r {
+			if o == v {
+				seen = true
+			}
+		}
+		if !seen {
+			r = append(r, v)
+		}
+	}
+	return r
+}
